@@ -5,6 +5,7 @@ import I2N.Lemmas.TravGlobal
 import I2N.Lemmas.TravGlobalN
 import I2N.Lemmas.TravGlobalR
 import I2N.Lemmas.TravFair
+import I2N.Lemmas.TravDefinite
 import I2N.Model.TravMon
 /-!
 # C02 — Traversal terminates and every selected test gets a definite result  (partial by design)
@@ -1254,5 +1255,176 @@ example := backoff_sleeps_a_tenth gDuo (edgeSymB_sound (by decide)) 2 []
         ⟨none, 0⟩ 82).1.wd 1).pc <;> rw [hpc] at h <;> first | rfl | cases h)
 example : (resume gDuo (I2N.Trav.GlobalN.runStepsN gDuo (initState gDuo 2 []) (runOfGDuo.take 1)) 1
     ⟨none, 0⟩ 82).2.getLast? = some (Event.sleep "net2" 10) := by decide +kernel
+
+-- ==== pxdef ====
+/-! ## The END of a run: every selected test has a definite result (`Lemmas/TravDefinite.lean`)
+
+Scheduler view as above (`GlobalN.StepN`, `GlobalN.runStepsN`; any graph with `graphWF`, lazily expanded ones included:
+`initState g ncls store hidden`).  A *placeholder* is a result with status `"UNKNOWN"` and tag `≥ 1`: `run_test_node` appends
+`{"name": …, "status": "UNKNOWN"}` before it awaits the task and removes it when it has found the report (the model tags
+the placeholder objects `1, 2, …`; the results that replace them carry tag `0` and the status the job reported).
+`Definite.Abandoned g s steps m t`: some step of the run was taken by a worker that was inside execution `t` of copy `m`
+with `wait ≥ 10` — the task ended, ten sleeps of the result wait followed — while the report `(name, uid)` was still missing
+among the job results: the execution was given up. -/
+
+open I2N.Trav.GlobalN I2N.Trav.Definite in
+/-- **unknown_only_inside_or_abandoned** (the invariant behind `no_unknown_at_end`).  After ANY run of real workers with
+positive fuel, on every copy `m` that is not an object root: a placeholder with tag `t` exists only while some real worker
+is suspended inside execution `t` of `m` (program counter `test m plain … t …`: the task is running, or the worker sleeps
+waiting for the report) — or execution `t` was given up on the way (`Abandoned`), in which case the placeholder stays for
+ever (`never_reported_defaults_to_error`, `abandoned_placeholder_stays`).
+Hypotheses: `graphWF` (edge ends are node indices); `1 ≤ r.tag` singles out placeholders — a test that REPORTS the status
+`UNKNOWN` files a definite result with that status (`reported_unknown_is_not_a_placeholder`); object roots are excluded
+because their creation pre-step works on a copy of the result list (`preResults`), which `Basic` does not describe. -/
+theorem unknown_only_inside_or_abandoned (g : Graph) (hwf : graphWF g = true) (ncls : Nat)
+    (store : List (String × List (String × String))) (hidden : List Nat) (steps : List StepN)
+    (hreal : ∀ x ∈ steps, x.1 < g.workers.length) (hfuel : ∀ x ∈ steps, 0 < x.2.2)
+    (m : Nat) (hm : (g.node m).objectRoot = false) (r : Result)
+    (hr : r ∈ ((runStepsN g (initState g ncls store hidden) steps).nd m).results)
+    (hu : r.status = "UNKNOWN") (ht : 1 ≤ r.tag) :
+    (∃ v, v < g.workers.length ∧ ∃ dir uid wait,
+      ((runStepsN g (initState g ncls store hidden) steps).wd v).pc = .test m .plain dir uid r.tag wait) ∨
+    Abandoned g (initState g ncls store hidden) steps m r.tag := by
+  have W := GraphWF.of_bool hwf
+  rcases run_placeholder W ncls store hidden steps hreal hfuel m hm r hr hu ht with h | h
+  · exact Or.inl (owner_real (basic_run W steps _ (Basic.init g W ncls store hidden) hreal hfuel) h)
+  · exact Or.inr h
+
+open I2N.Trav.GlobalN I2N.Trav.Definite in
+/-- **never_reported_defaults_to_error**: what the model (and `run_test_node`) does when the report never arrives.  State
+`s` reachable (`ReachableR`), worker `w` inside execution `tag` of copy `n` with `wait ≥ 10` (the eleventh resumption: the
+task ended at `wait = 0`, ten sleeps of 30 s followed), report `(name n, uid)` not among the job results.  Then the step
+of `w` IS the continuation after a test that counts as failed — `continueAfter … ok := false`, the runner's default
+`error`: `traverse_node` ends, the run decision is taken again — on the unchanged state: no result is filed, the
+placeholder of `tag` STAYS in `n`'s results (all old results do), and afterwards nobody is inside execution `tag` of `n`. -/
+theorem never_reported_defaults_to_error (g : Graph) (hwf : graphWF g = true) (ncls : Nat)
+    (store : List (String × List (String × String))) (s : State) (hs : ReachableR g ncls store s)
+    (w : Nat) (out : Outcome) (fuel : Nat) (hf : 0 < fuel) (n : Nat) (dir : Dir) (uid : String) (tag wait : Nat)
+    (hpc : (s.wd w).pc = .test n .plain dir uid tag wait) (hge : 10 ≤ wait)
+    (hnone : s.jobResults.find? (fun r => r.1 == (g.node n).name && r.2.1 == uid) = none) :
+    resume g s w out fuel = resumeTest.continueAfter g w n .plain dir fuel s false [] ∧
+    phOf (g.node n).name tag ∈ ((resume g s w out fuel).1.nd n).results ∧
+    (s.nd n).results <+: ((resume g s w out fuel).1.nd n).results ∧
+    ¬ Owner (resume g s w out fuel).1 n tag :=
+  ⟨resume_abandon g s w out fuel hpc hge hnone,
+    abandon_keeps (GraphWF.of_bool hwf) (hs.basic hwf) w out fuel hf hpc hge hnone⟩
+
+open I2N.Trav.GlobalN I2N.Trav.Definite in
+/-- **no_unknown_outside_tests**: in a state of a run in which no real worker is suspended inside a test — in particular
+when all real workers are `done` (`no_unknown_at_end`) — every placeholder on a copy that is not an object root belongs to
+an execution that was given up. -/
+theorem no_unknown_outside_tests (g : Graph) (hwf : graphWF g = true) (ncls : Nat)
+    (store : List (String × List (String × String))) (hidden : List Nat) (steps : List StepN)
+    (hreal : ∀ x ∈ steps, x.1 < g.workers.length) (hfuel : ∀ x ∈ steps, 0 < x.2.2)
+    (hquiet : ∀ v, v < g.workers.length → ((runStepsN g (initState g ncls store hidden) steps).wd v).pc.isTest = false)
+    (m : Nat) (hm : (g.node m).objectRoot = false) (r : Result)
+    (hr : r ∈ ((runStepsN g (initState g ncls store hidden) steps).nd m).results)
+    (hu : r.status = "UNKNOWN") (ht : 1 ≤ r.tag) :
+    Abandoned g (initState g ncls store hidden) steps m r.tag := by
+  rcases unknown_only_inside_or_abandoned g hwf ncls store hidden steps hreal hfuel m hm r hr hu ht with
+    ⟨v, hv, _, _, _, hp⟩ | h
+  · have := hquiet v hv
+    rw [hp] at this; cases this
+  · exact h
+
+open I2N.Trav.GlobalN I2N.Trav.Definite in
+/-- **no_unknown_at_end.**  When all real workers are `done`: no copy (object roots aside) carries an in-flight UNKNOWN
+placeholder, EXCEPT for executions whose report never arrived within the ten sleeps of the result wait (`Abandoned`); for
+those the runner went on with its default `error` and left the placeholder in place (`never_reported_defaults_to_error`).
+The exception is real: `abandoned_placeholder_stays`.  If every step of the run is given a status (`Reports`: whenever a
+test task ends it has reported) there is no exception: `no_unknown_at_end_reported`. -/
+theorem no_unknown_at_end (g : Graph) (hwf : graphWF g = true) (ncls : Nat)
+    (store : List (String × List (String × String))) (hidden : List Nat) (steps : List StepN)
+    (hreal : ∀ x ∈ steps, x.1 < g.workers.length) (hfuel : ∀ x ∈ steps, 0 < x.2.2)
+    (hdone : ∀ v, v < g.workers.length → ((runStepsN g (initState g ncls store hidden) steps).wd v).pc = .done)
+    (m : Nat) (hm : (g.node m).objectRoot = false) (r : Result)
+    (hr : r ∈ ((runStepsN g (initState g ncls store hidden) steps).nd m).results)
+    (hu : r.status = "UNKNOWN") (ht : 1 ≤ r.tag) :
+    Abandoned g (initState g ncls store hidden) steps m r.tag :=
+  no_unknown_outside_tests g hwf ncls store hidden steps hreal hfuel (fun v hv => by rw [hdone v hv]; rfl) m hm r hr hu ht
+
+open I2N.Trav.GlobalN I2N.Trav.Definite in
+/-- **no_unknown_at_end_reported.**  If every resumption is given a status (`Reports steps`: no test task ends without a
+report; the status is arbitrary), no execution is ever given up, no worker ever sleeps in the result wait, and at the
+end — nobody inside a test — no copy that is not an object root carries a placeholder: every `UNKNOWN` left is a status
+that was reported (tag `0`). -/
+theorem no_unknown_at_end_reported (g : Graph) (hwf : graphWF g = true) (ncls : Nat)
+    (store : List (String × List (String × String))) (hidden : List Nat) (steps : List StepN)
+    (hreal : ∀ x ∈ steps, x.1 < g.workers.length) (hfuel : ∀ x ∈ steps, 0 < x.2.2) (hrep : Reports steps)
+    (hquiet : ∀ v, v < g.workers.length → ((runStepsN g (initState g ncls store hidden) steps).wd v).pc.isTest = false)
+    (m : Nat) (hm : (g.node m).objectRoot = false) (r : Result)
+    (hr : r ∈ ((runStepsN g (initState g ncls store hidden) steps).nd m).results) (hu : r.status = "UNKNOWN") :
+    r.tag = 0 := by
+  by_cases ht : 1 ≤ r.tag
+  · have W := GraphWF.of_bool hwf
+    exact absurd (no_unknown_outside_tests g hwf ncls store hidden steps hreal hfuel hquiet m hm r hr hu ht)
+      (not_abandoned W steps _ (Basic.init g W ncls store hidden) (w0_init g ncls store hidden) hreal hfuel hrep m r.tag)
+  · omega
+
+/-- the run `runOfGRun` of the single worker of `gRun` as a run of the many-worker scheduler -/
+def runNOfGRun : List I2N.Trav.GlobalN.StepN := runOfGRun.map (fun x => (0, x.1, x.2))
+
+/-- **The literal statement "no UNKNOWN result at the end" is FALSE** (in the model, and in `run_test_node`, which removes
+its placeholder only inside the branch that found the report): in `runOfGRun` the report of `c` (copy 3) never arrives;
+the worker ends `done`, `c` was executed once, and its only result is the placeholder (status `UNKNOWN`). -/
+theorem abandoned_placeholder_stays :
+    pcIsDone ((I2N.Trav.GlobalN.runStepsN gRun (initState gRun 5 []) runNOfGRun).wd 0).pc = true ∧
+    ((I2N.Trav.GlobalN.runStepsN gRun (initState gRun 5 []) runNOfGRun).nd 3).results.map (fun r => (r.status, r.tag)) =
+      [("UNKNOWN", 3)] ∧
+    (I2N.Trav.GlobalN.runStepsN gRun (initState gRun 5 []) runNOfGRun).jobResults.map (fun r => r.1) =
+      ["a.net1", "b.net1", "b.net1", "d.net1"] := by decide +kernel
+
+/-- … and the theorems above apply to it: the placeholder is one of an execution that was given up -/
+example : I2N.Trav.Definite.Abandoned gRun (initState gRun 5 []) runNOfGRun 3 3 :=
+  no_unknown_at_end gRun (by decide) 5 [] [] runNOfGRun (by decide) (by decide)
+    (by
+      intro v hv
+      have hv0 : v = 0 := by
+        have : v < 1 := hv
+        omega
+      subst hv0
+      have h := abandoned_placeholder_stays.1
+      cases hpc : ((I2N.Trav.GlobalN.runStepsN gRun (initState gRun 5 []) runNOfGRun).wd 0).pc <;> rw [hpc] at h <;>
+        first | rfl | cases h)
+    3 (by decide) ⟨"c.net1", "UNKNOWN", "", 3, 0⟩
+    (by
+      have h : ((I2N.Trav.GlobalN.runStepsN gRun (initState gRun 5 []) runNOfGRun).nd 3).results =
+          [⟨"c.net1", "UNKNOWN", "", 3, 0⟩] := by decide +kernel
+      rw [h]; exact List.mem_cons_self)
+    rfl (by decide)
+
+/-- Witness that `1 ≤ r.tag` cannot be dropped: a test that REPORTS the status `UNKNOWN` files a result with that status
+(tag `0`); nobody is inside that execution any more and nothing was given up. -/
+theorem reported_unknown_is_not_a_placeholder :
+    ((I2N.Trav.GlobalN.runStepsN gRun (initState gRun 5 []) [(0, ⟨none, 0⟩, 274), (0, ⟨some "UNKNOWN", 1⟩, 274)]).nd 1).results.map
+      (fun r => (r.status, r.tag)) = [("UNKNOWN", 0)] ∧
+    pcWaitOf ((I2N.Trav.GlobalN.runStepsN gRun (initState gRun 5 []) [(0, ⟨none, 0⟩, 274), (0, ⟨some "UNKNOWN", 1⟩, 274)]).wd 0).pc ≠
+      some (1, 0) := by decide +kernel
+
+/-- non-vacuity of `unknown_only_inside_or_abandoned`: after the first step of `runOfGDuo` worker 0 is inside execution 1
+of its leaf, whose only result is the placeholder -/
+example : ((I2N.Trav.GlobalN.runStepsN gDuo (initState gDuo 2 []) (runOfGDuo.take 1)).nd 1).results.map
+      (fun r => (r.status, r.tag)) = [("UNKNOWN", 1)] ∧
+    pcWaitOf ((I2N.Trav.GlobalN.runStepsN gDuo (initState gDuo 2 []) (runOfGDuo.take 1)).wd 0).pc = some (1, 0) := by
+  decide +kernel
+example := unknown_only_inside_or_abandoned gDuo (by decide) 2 [] [] (runOfGDuo.take 1) (by decide) (by decide) 1 (by decide)
+  ⟨"leaf.net1", "UNKNOWN", "", 1, 0⟩
+  (by
+    have h : ((I2N.Trav.GlobalN.runStepsN gDuo (initState gDuo 2 []) (runOfGDuo.take 1)).nd 1).results =
+        [⟨"leaf.net1", "UNKNOWN", "", 1, 0⟩] := by decide +kernel
+    rw [h]; exact List.mem_cons_self)
+  rfl (by decide)
+/-- non-vacuity of `no_unknown_at_end_reported`: a run of `gDuo` in which every resumption is given a status; both workers
+end `done`, the class has the one result `PASS` -/
+def reportedRunOfGDuo : List I2N.Trav.GlobalN.StepN :=
+  [(0, ⟨some "PASS", 1⟩, 82), (1, ⟨some "PASS", 1⟩, 82), (0, ⟨some "PASS", 1⟩, 82), (1, ⟨some "PASS", 1⟩, 82)]
+example : I2N.Trav.Definite.Reports reportedRunOfGDuo := by
+  intro x hx
+  simp only [reportedRunOfGDuo, List.mem_cons, List.not_mem_nil, or_false] at hx
+  rcases hx with h | h | h | h <;> rw [h] <;> simp
+example : pcIsDone ((I2N.Trav.GlobalN.runStepsN gDuo (initState gDuo 2 []) reportedRunOfGDuo).wd 0).pc = true ∧
+    pcIsDone ((I2N.Trav.GlobalN.runStepsN gDuo (initState gDuo 2 []) reportedRunOfGDuo).wd 1).pc = true ∧
+    ((I2N.Trav.GlobalN.runStepsN gDuo (initState gDuo 2 []) reportedRunOfGDuo).nd 1).results.map (·.status) = ["PASS"] := by
+  decide +kernel
 
 end I2N.Props.C02
